@@ -78,6 +78,11 @@ def _fix_ints(v, rng, ints):
 
 def np_value(i):
     import numpy as np
+    if i in (5, 7):
+        # object-dtype arrays (strings / None / containers as objects, ragged rows): saved by pickling inside the .npy file
+        a = np.empty(3 if i == 5 else 2, dtype=object)
+        a[:] = [None, 'é', {'k': [1]}] if i == 5 else [[1, 2], [3]]
+        return a
     dt = [np.int64, np.float32, np.float64, np.uint8, np.bool_][i % 5]
     a = (np.arange(i + (i % 3)) % 7).astype(dt)
     if i % 4 == 3 and a.size % 2 == 0:
@@ -99,6 +104,8 @@ def ident(kind, v):
     if kind == 'npy':
         if not isinstance(v, np.ndarray):
             return ('other', repr(v))
+        if v.dtype == object:
+            return ('np', 'object', v.shape, repr(v.tolist()))
         return ('np', str(v.dtype), v.shape, v.tobytes())
     if kind == 'pd':
         if not isinstance(v, pd.DataFrame):
